@@ -143,7 +143,10 @@ var keywords = map[string]bool{}
 func init() {
 	for _, k := range strings.Fields(`SELECT DISTINCT FROM WHERE GROUP BY HAVING ORDER ASC DESC NULLS FIRST LAST LIMIT OFFSET AS ON JOIN INNER LEFT RIGHT
 		FULL OUTER CROSS UNION ALL INTERSECT EXCEPT WITH RECURSIVE INSERT INTO VALUES UPDATE SET DELETE RETURNING AND OR NOT IS NULL IN BETWEEN
-		LIKE CASE WHEN THEN ELSE END EXISTS FOR OVER PARTITION USING MERGE MATCHED`) {
+		LIKE CASE WHEN THEN ELSE END EXISTS FOR OVER PARTITION USING MERGE MATCHED
+		ANY ILIKE ESCAPE ROWS RANGE PRECEDING FOLLOWING UNBOUNDED CURRENT ROW FILTER LATERAL NATURAL FETCH NEXT ONLY TIES
+		NOWAIT CONFLICT DO NOTHING ROLLUP CUBE GROUPING SETS WINDOW TRUNCATE CREATE DROP ALTER TABLE VIEW INDEX ADD COLUMN
+		PRIMARY KEY REFERENCES UNIQUE CHECK CONSTRAINT FOREIGN DEFAULT TEMPORARY CASCADE MATERIALIZED`) {
 		keywords[k] = true
 	}
 }
